@@ -127,11 +127,15 @@ engine.register('c11_worker', c11_worker)
 
 
 def sample(cases, n, rng, max_runs=24):
+    # TLC prints the cases in an order that depends on its worker threads: sort them first, so that a seed always
+    # selects the same cases
+    cases = sorted(cases, key=lambda c: json.dumps([c['g'], c.get('cfg')], sort_keys=True))
     pick = cases if len(cases) <= n else rng.sample(cases, n)
     out = []
     for c in pick:
         c = dict(c)
-        idx = list(range(len(c['runs'])))
+        # (curried entry points C.parse(values)(text) are C06's / C08's business; the workers here call entry.parse(text))
+        idx = [i for i in range(len(c['runs'])) if not isinstance(c['runs'][i][0], list)]
         # prefer runs that match (so that values, not only failures, are compared)
         good = [i for i in idx if c['exp'][i][0] == 'ok' and c['exp'][i][2] > 0]
         rest = [i for i in idx if i not in good]
